@@ -361,6 +361,34 @@ def main():
                 fail("shallow-crossing-just-before-a-step-boundary-reported-twice", times=[float(e.t) for e in a.events])
         except Exception as e:
             fail("integration-with-events-raised", error=repr(e)[:200], family="shallow-boundary")
+    # (d1) the same event function *objects* given to a second system (another initial state, another direction, dense output on) and to the
+    # first one again after reset(): each run reports the crossings of its own solution (nothing about an earlier run's solution is kept)
+    def osc(t, y, **kw):
+        return np.stack([y[1], -y[0]])
+
+    def g_shared(t, y, **kw):
+        return y[0] - 0.5
+    shared = [g_shared]
+
+    def crossings_of(a):
+        ys = np.asarray(a.y)[:, 0] - 0.5
+        return int(np.sum(ys[:-1] * ys[1:] < 0))
+    try:
+        cases[0] += 1
+        a = de.OdeSystem(osc, y0=np.array([1.0, 0.0]), t=(0.0, 10.0), dt=0.1, rtol=1e-8, atol=1e-8)
+        a.method = "RK45CK"
+        a.integrate(events=shared)
+        b = de.OdeSystem(osc, y0=np.array([0.0, 2.0]), t=(0.0, -10.0), dt=0.1, rtol=1e-8, atol=1e-8, dense_output=True)
+        b.method = "RK8713M"
+        b.integrate(events=shared)
+        n_a = len(a.events)
+        a.reset()
+        a.integrate(events=shared)
+        for label, sys_, want in (("second-system", b, crossings_of(b)), ("first-system-after-reset", a, n_a)):
+            if len(sys_.events) != want:
+                fail("event-functions-reused-by-another-run-miss-its-crossings", run=label, reported=len(sys_.events), sign_changes=want)
+    except Exception as e:
+        fail("integration-with-events-raised", error=repr(e)[:200], family="shared-event-functions")
     # (d) crossings exactly on step boundaries, fixed step (y' = 1): two events sharing a step, one root on the boundary
     def rhs1(t, y, **kw):
         return np.array([1.0])
